@@ -131,6 +131,7 @@ type agRender struct {
 	late   []string // declarations that must come after their use (forward references)
 	entry  []string
 	f16    bool
+	pcs    map[string]float64 // pipeline constants for the module's overrides (option sets with PC)
 }
 
 func (r *agRender) has(f string) bool { return r.syn[f] }
@@ -282,6 +283,9 @@ func (r *agRender) wrap(cf, stmt string, k int) string {
 		return fmt.Sprintf("for (var i%d = 0; i%d < 2; i%d++) { %s }", k, k, k, stmt)
 	case "switch":
 		return fmt.Sprintf("switch nu_flag { case 1, 2%s: { %s } default: { acc += 2.0; } }", r.tc("tc_case"), stmt)
+	case "switch_nested":
+		// the operation sits in an outer clause after a complete nested switch and a conditional break of the outer switch
+		return fmt.Sprintf("switch nu_flag { case 1: { switch nu_flag { case 3: { acc += 1.0; } default: { } } if acc > 50.0 { break; } %s } default: { acc += 2.0; } }", stmt)
 	}
 	return stmt
 }
@@ -450,6 +454,15 @@ func (r *agRender) helper(k int) {
 		add(fmt.Sprintf("fn %s(x: i32) -> i32 { var r = 0; loop { switch x { case 1: { r = 5; break; } default: { r = 7; } } if r > 0 { break; } } return r; }", n))
 	case "switch_break_noloop":
 		add(fmt.Sprintf("fn %s(x: i32) -> i32 { var r = 0; switch x { case 1: { r = 5; break; } case 2, 3: { if x == 2 { break; } r = 6; } default: { r = 7; } } return r; }", n))
+	case "switch_nested_break_after":
+		// a complete nested switch, then a conditional break of the OUTER switch in the same clause
+		add(fmt.Sprintf("fn %s(x: i32) -> i32 { var r = x; switch x { case 1: { switch r { case 2: { r += 1; } default: { } } if r > 0 { break; } r = 1; } default: { r = 2; } } return r; }", n))
+	case "switch_nested_break_direct":
+		add(fmt.Sprintf("fn %s(x: i32) -> i32 { var r = x; switch x { case 1, 2: { switch r { default: { r += 1; } } { r += 2; } break; } default: { switch r { case 0: { break; } default: { r = 3; } } { if r == 3 { break; } } r = 4; } } return r; }", n))
+	case "switch_in_continuing":
+		add(fmt.Sprintf("fn %s(x: i32) -> i32 { var r = x; var i = 0; loop { if i > 2 { break; } r += 1; continuing { i += 1; switch i { case 1: { r += 2; } default: { r += 3; } } } } return r; }", n))
+	case "switch_in_continuing_nested_break":
+		add(fmt.Sprintf("fn %s(x: i32) -> i32 { var r = x; var i = 0; loop { if i > 2 { break; } continuing { i += 1; switch i { case 1: { switch r { default: { r += 1; } } if r > 5 { break; } r += 2; } default: { } } } } return r; }", n))
 	case "switch_continue_in_loop":
 		add(fmt.Sprintf("fn %s(x: i32) -> i32 { var r = x; for (var i = 0; i < 3; i++) { switch i { case 1: { continue; } default: { r += i; } } r += 1; } return r; }", n))
 	case "shadow_let":
@@ -490,6 +503,37 @@ func (r *agRender) helper(k int) {
 	case "const_matrix_elem":
 		r.consts = append(r.consts, fmt.Sprintf("const KE%d = mat2x2<f32>(1.0, 0.0, 0.0, 2.0);", k))
 		add(fmt.Sprintf("fn %s(x: i32) -> i32 { let a = KE%d[1][1]; return x + i32(a); }", n, k))
+	case "shadow_fwd_let_const":
+		r.consts = append(r.consts, fmt.Sprintf("const g%d: i32 = 3;", k))
+		add(fmt.Sprintf("fn %s(x: i32) -> i32 { let g%d = g%d * 2; return x + g%d; }", n, k, k, k))
+	case "shadow_fwd_const_const":
+		// the module-scope const is typed: with an abstract one see shadow_fwd_const_abstract
+		r.consts = append(r.consts, fmt.Sprintf("const g%d: i32 = 5;", k))
+		add(fmt.Sprintf("fn %s(x: i32) -> i32 { const g%d = g%d + 1; return x + g%d; }", n, k, k, k))
+	case "shadow_fwd_const_abstract":
+		// both consts abstract: on the unpatched tree the lowerer recurses without bound (known finding; the replay workers
+		// turn the fatal error into a recorded rejection).  Only the dedicated small configuration uses this shape.
+		r.consts = append(r.consts, fmt.Sprintf("const g%d = 5;", k))
+		add(fmt.Sprintf("fn %s(x: i32) -> i32 { const g%d = g%d + 1; return x + g%d; }", n, k, k, k))
+	case "shadow_fwd_var_private":
+		r.resd = append(r.resd, fmt.Sprintf("var<private> g%d: i32 = 2;", k))
+		add(fmt.Sprintf("fn %s(x: i32) -> i32 { var g%d = g%d + 1; g%d += x; return g%d; }", n, k, k, k, k))
+	case "shadow_fwd_let_override":
+		r.consts = append(r.consts, fmt.Sprintf("override g%d: f32 = 1.5;", k))
+		r.pcs[fmt.Sprintf("g%d", k)] = 2.5
+		add(fmt.Sprintf("fn %s(x: i32) -> i32 { let g%d = g%d * 2.0; return x + i32(g%d); }", n, k, k, k))
+	case "shadow_fwd_block":
+		r.consts = append(r.consts, fmt.Sprintf("const g%d: i32 = 4;", k))
+		add(fmt.Sprintf("fn %s(x: i32) -> i32 { var r = x; { let g%d = g%d + 1; r += g%d; } return r; }", n, k, k, k))
+	case "shadow_fwd_loop":
+		r.resd = append(r.resd, fmt.Sprintf("var<private> g%d: i32 = 2;", k))
+		add(fmt.Sprintf("fn %s(x: i32) -> i32 { var r = x; loop { var g%d = g%d + 1; r += g%d; break; } return r; }", n, k, k, k))
+	case "shadow_fwd_for_init":
+		r.consts = append(r.consts, fmt.Sprintf("const g%d: i32 = 1;", k))
+		add(fmt.Sprintf("fn %s(x: i32) -> i32 { var r = x; for (var g%d = g%d; g%d < 3; g%d++) { r += g%d; } return r; }", n, k, k, k, k, k))
+	case "shadow_block_leak":
+		r.consts = append(r.consts, fmt.Sprintf("const g%d: i32 = 6;", k))
+		add(fmt.Sprintf("fn %s(x: i32) -> i32 { var r = x; { let g%d = 1.5; r += i32(g%d); } return r + g%d; }", n, k, k, k))
 	case "uses_res":
 		add(fmt.Sprintf("fn %s(x: i32) -> i32 { return x + i32(%s); }", n, r.readExpr(h.R)))
 	}
@@ -577,7 +621,13 @@ func (r *agRender) synHelper() {
 
 // renderAccept prints the WGSL module of a description.
 func renderAccept(m *agModule) string {
-	r := &agRender{m: m, syn: map[string]bool{}}
+	s, _ := renderAcceptPC(m)
+	return s
+}
+
+// renderAcceptPC prints the WGSL module of a description and the pipeline constants for its overrides.
+func renderAcceptPC(m *agModule) (string, map[string]float64) {
+	r := &agRender{m: m, syn: map[string]bool{}, pcs: map[string]float64{}}
 	for _, s := range m.Syn {
 		r.syn[s] = true
 	}
@@ -592,7 +642,7 @@ func renderAccept(m *agModule) string {
 	for ei, e := range m.Entries {
 		r.entryPoint(ei)
 		for _, o := range e.Ops {
-			if o.Cf == "if_nonuniform" || o.Cf == "switch" {
+			if o.Cf == "if_nonuniform" || o.Cf == "switch" || o.Cf == "switch_nested" {
 				needNU = true
 			}
 			if o.Cf == "if_uniform" {
@@ -638,5 +688,5 @@ func renderAccept(m *agModule) string {
 			sb.WriteString("\n")
 		}
 	}
-	return sb.String()
+	return sb.String(), r.pcs
 }
